@@ -42,13 +42,13 @@ Qed.
 
 Lemma top_message_refines : forall h d top bottom ta ba clear,
   fitsb (d_g d) = true -> shows h d -> opt_asciib top = true -> opt_asciib bottom = true ->
-  align_ok ta = true -> align_ok ba = true -> (bottom = None \/ 2 <= d_rows d) ->
+  align_ok ta = true -> align_ok ba = true ->
   exists h' d', hstep h (OMessage top bottom ta ba clear) = (h', HOk) /\
                 dstep d (OMessage top bottom ta ba clear) = Some d' /\ shows h' d'.
 Proof.
-  intros h d top bottom ta ba clear Hf Sh Ht Hb Hta Hba Hrows. apply fitsb_fits in Hf.
+  intros h d top bottom ta ba clear Hf Sh Ht Hb Hta Hba. apply fitsb_fits in Hf.
   pose proof (message_refines h d top bottom ta ba clear Hf Sh (opt_asciib_ascii _ Ht) (opt_asciib_ascii _ Hb)
-                Hta Hba Hrows) as H.
+                Hta Hba) as H.
   destruct H as (h' & E & _ & S). cbv zeta in S. destruct S as (S & _).
   exists h', (dmessage d top bottom ta ba clear). cbn [hstep dstep].
   rewrite Hta, Hba, (opt_utf8_ascii _ (opt_asciib_ascii _ Ht)), (opt_utf8_ascii _ (opt_asciib_ascii _ Hb)). cbn [andb].
@@ -69,13 +69,12 @@ Qed.
 
 Lemma top_progress_refines : forall h d row value maxv width style label,
   fitsb (d_g d) = true -> shows h d -> 0 <= row < d_rows d -> style_ok style = true -> ascii label ->
-  0 < maxv -> width_in width = true ->
   hfilled value maxv (hwidth (d_cols d) width) = dfilled value maxv (dwidth (d_cols d) width) ->
   exists h' d', hstep h (OProgress row value maxv width style label) = (h', HOk) /\
                 dstep d (OProgress row value maxv width style label) = Some d' /\ shows h' d'.
 Proof.
-  intros h d row value maxv width style label Hf Sh Hr Hs Hl Hm Hw Hfd. apply fitsb_fits in Hf.
-  pose proof (progress_refines h d row value maxv width style label Hf Sh Hr Hs Hl Hm Hw Hfd) as H.
+  intros h d row value maxv width style label Hf Sh Hr Hs Hl Hfd. apply fitsb_fits in Hf.
+  pose proof (progress_refines h d row value maxv width style label Hf Sh Hr Hs Hl Hfd) as H.
   destruct H as (h' & E & _ & S). cbv zeta in S. destruct S as (S & _).
   exists h', (progress d (d_cols d) row value maxv width style label). cbn [hstep dstep]. rewrite Hs, (utf8_ascii _ Hl).
   split; [exact E|]. split; [reflexivity|exact S].
@@ -84,16 +83,15 @@ Qed.
 (* the same with the statement's own condition: value*width is a multiple of max_value *)
 Lemma top_progress_refines_exact : forall h d row value maxv width style label,
   fitsb (d_g d) = true -> shows h d -> 0 <= row < d_rows d -> style_ok style = true -> ascii label ->
-  0 < maxv -> width_in width = true ->
   (maxv | value * hwidth (d_cols d) width) ->
   exists h' d', hstep h (OProgress row value maxv width style label) = (h', HOk) /\
                 dstep d (OProgress row value maxv width style label) = Some d' /\ shows h' d'.
 Proof.
-  intros h d row value maxv width style label Hf Sh Hr Hs Hl Hm Hw Hdiv.
+  intros h d row value maxv width style label Hf Sh Hr Hs Hl Hdiv.
   apply top_progress_refines; try assumption.
   pose proof (fitsb_fits _ Hf) as (Hc & _). fold (d_cols d) in Hc.
-  destruct (width_agree (d_cols d) width ltac:(lia) Hw) as [Ew Hwr]. rewrite Ew.
-  apply progress_exact; [exact Hm|lia|exact Hdiv].
+  destruct (width_agree (d_cols d) width ltac:(lia)) as [Ew Hwr]. rewrite Ew.
+  apply progress_exact; [lia|exact Hdiv].
 Qed.
 
 Lemma dinit_g g : d_g (dinit g) = g.
@@ -278,15 +276,22 @@ Proof.
     split; [exact G|]. split; [eapply in_row_ext_rows; [left; reflexivity|exact X]|].
     intros r c Hrr Hcc Hn. apply C; try assumption. intros ->. apply Hn. left; reflexivity.
   - (* message *)
-    apply andb_true_iff in Hg as [Hg Hbr]. apply andb_true_iff in Hg as [Hta Hba].
+    apply andb_true_iff in Hg as [Hta Hba].
     rewrite Hta, Hba in Hs. cbn [andb] in Hs. injection Hs as <-.
     fold (wa_opt d (d_cols d) 0 (option_map utf8 top) clear top_align).
     destruct (wa_opt_in_row d 0 (option_map utf8 top) clear top_align Hf ltac:(lia) Hta) as (G1 & X1 & C1).
     rewrite is_none_map in X1, C1.
     set (d1 := wa_opt d (d_cols d) 0 (option_map utf8 top) clear top_align) in *.
-    destruct bottom as [b0|]; cbn [is_none option_map] in *; [set (b := utf8 b0)|].
-    + rewrite orb_false_l in Hbr. apply Z.leb_le in Hbr. fold (d_rows d) in Hbr.
-      assert (Hf1 : fits (d_g d1)) by (rewrite G1; exact Hf).
+    assert (Skip : d_g d1 = d_g d /\ rows_ext ((if is_none top then [] else [0]) ++ []) d d1 /\
+              (forall r c, 0 <= r < d_rows d -> 0 <= c < d_cols d ->
+                 ~ In r ((if is_none top then [] else [0]) ++ []) -> dcell d1 r c = dcell d r c)).
+    { rewrite app_nil_r. split; [exact G1|]. split; [exact X1|].
+      intros r c Hrr Hcc Hn. apply C1; try assumption. intros Ht ->. apply Hn. rewrite Ht. left. reflexivity. }
+    destruct bottom as [b0|]; cbn [is_none option_map orb] in *; [set (b := utf8 b0)|exact Skip].
+    fold (d_rows d). rewrite Z.gtb_ltb. destruct (Z.ltb_spec 1 (d_rows d)) as [Hbr|Hbr];
+      [destruct (Z.leb_spec (d_rows d) 1); [lia|]|destruct (Z.leb_spec (d_rows d) 1); [exact Skip|lia]].
+    clear Skip.
+    + assert (Hf1 : fits (d_g d1)) by (rewrite G1; exact Hf).
       assert (Er : d_rows d1 = d_rows d) by (unfold d_rows; rewrite G1; reflexivity).
       assert (Ec : d_cols d1 = d_cols d) by (unfold d_cols; rewrite G1; reflexivity).
       destruct (wa_in_row d1 0 1 b clear bottom_align Hf1 ltac:(lia) ltac:(lia) Hba) as (G2 & X2 & C2).
@@ -298,8 +303,6 @@ Proof.
       * intros r c Hrr Hcc Hn. rewrite C2; try assumption.
         -- apply C1; try assumption. intros Ht ->. apply Hn. apply in_or_app. left. rewrite Ht. left. reflexivity.
         -- intros ->. apply Hn. apply in_or_app. right. left. reflexivity.
-    + rewrite app_nil_r. split; [exact G1|]. split; [exact X1|].
-      intros r c Hrr Hcc Hn. apply C1; try assumption. intros Ht ->. apply Hn. rewrite Ht. left. reflexivity.
   - (* clear *)
     injection Hs as <-. split; [reflexivity|]. split.
     + exists [EvCLR]. split; [reflexivity|]. constructor; [exact I|constructor].
@@ -363,10 +366,14 @@ Proof.
     assert (H1 : hrow (fst p1) r = hrow h r).
     { subst p1. destruct top as [t|]; [|reflexivity]. rewrite hline_hwrite. apply hwrite_other; [lia|].
       intros ->. apply Hn. cbn [is_none]. apply in_or_app. left. left. reflexivity. }
-    destruct p1 as [h1 r1]. cbn [fst] in H1. destruct r1 as [|k]; [|exact H1].
-    destruct bottom as [b|]; [|exact H1]. destruct (h_rows h1 >? 1); [|exact H1].
+    destruct p1 as [h1 r1] eqn:Ep1. cbn [fst] in H1. destruct r1 as [|k]; [|exact H1].
+    assert (G1 : h_rows h1 = h_rows h).
+    { unfold h_rows. replace h1 with (fst p1) by (rewrite Ep1; reflexivity). subst p1.
+      destruct top as [t|]; [rewrite hline_hwrite, hwrite_g|]; reflexivity. }
+    destruct bottom as [b|]; [|exact H1]. rewrite G1, Z.gtb_ltb. destruct (Z.ltb_spec 1 (h_rows h)) as [Hb|Hb]; [|exact H1].
     rewrite hline_hwrite, hwrite_other; [exact H1|lia|].
-    intros ->. apply Hn. cbn [is_none]. apply in_or_app. right. left. reflexivity.
+    intros ->. apply Hn. cbn [is_none orb]. fold (h_rows h). destruct (Z.leb_spec (h_rows h) 1); [lia|].
+    apply in_or_app. right. left. reflexivity.
   - exfalso. apply Hn. apply In_zseq. exact Hr.
   - unfold hprogress. destruct (negb (style_ok style)); [reflexivity|].
     destruct (negb (row_ok h row)); [reflexivity|]. cbn [fst]. apply hrow_set; [lia|].
@@ -390,7 +397,7 @@ Proof.
   - destruct (align_ok top_align && align_ok bottom_align); [|reflexivity].
     set (d1 := match option_map utf8 top with Some t => _ | None => d end).
     assert (G1 : d_g d1 = d_g d) by (subst d1; destruct top; [apply textual_write_aligned|reflexivity]).
-    destruct bottom; [|exact G1]. rewrite <- G1. apply textual_write_aligned.
+    destruct bottom; [|exact G1]. destruct (d_rows d >? 1); [|exact G1]. rewrite <- G1. apply textual_write_aligned.
   - reflexivity.
   - destruct (style_ok style); [|reflexivity]. apply textual_progress.
   - apply (quiet_trans d (log d (EvDISP on)) _ (quiet_log d (EvDISP on) I) (quiet_bl_switch _ on)).
@@ -468,21 +475,48 @@ Qed.
 Definition g41 : geom := {| g_cols := 4; g_rows := 1; g_i2c := false; g_blpin := None |}.
 Definition msgAB : lop := OMessage (Some [65]) (Some [66]) 0 0 true.
 
-(* message(top, bottom) on a one-row display: the host skips bottom, the firmware's
-   setCursor(0, 1) is clamped to row 0 and bottom overwrites top *)
-Lemma top_message_one_row_refuted :
-  exists g op, fitsb g = true /\ g_rows g = 1 /\
-    (exists t b ta ba c, op = OMessage (Some t) (Some b) ta ba c /\ asciib t = true /\ asciib b = true /\
-                         align_ok ta = true /\ align_ok ba = true) /\
-    match hinit g with
-    | Some h0 => snd (hstep h0 op) = HOk /\ dstep (dinit g) op <> None /\
-                 cells (dstep' (dinit g) op) <> map (map canon) (h_buf (fst (hstep h0 op)))
-    | None => False
-    end.
+(* message(top, bottom) on a one-row display (formerly F-C17-message-one-row, repaired in
+   the emitter: the bottom write is emitted under `if (rows > 1)`): both sides skip bottom,
+   i.e. the call is message(top, None) *)
+Lemma top_message_one_row_skips : forall h d top bottom ta ba clear,
+  (h_rows h <= 1 -> hstep h (OMessage top bottom ta ba clear) = hstep h (OMessage top None ta ba clear)) /\
+  (d_rows d <= 1 -> dstep d (OMessage top bottom ta ba clear) = dstep d (OMessage top None ta ba clear)).
 Proof.
-  exists g41, msgAB. split; [reflexivity|]. split; [reflexivity|]. split.
-  - exists [65], [66], 0, 0, true. repeat split; reflexivity.
-  - vm_compute. split; [reflexivity|]. split; intros H; discriminate H.
+  intros h d top bottom ta ba clear. split; intros Hr; cbn [hstep dstep].
+  - unfold hmessage.
+    set (p1 := match top with Some t => hline h 0 t ta clear | None => (h, HOk) end).
+    assert (G1 : h_rows (fst p1) = h_rows h).
+    { unfold h_rows. subst p1. destruct top as [t|]; [rewrite hline_hwrite, hwrite_g|]; reflexivity. }
+    destruct p1 as [h1 r1]. cbn [fst] in G1. destruct r1; [|reflexivity].
+    destruct bottom; [|reflexivity]. rewrite G1, Z.gtb_ltb. destruct (Z.ltb_spec 1 (h_rows h)); [lia|reflexivity].
+  - destruct (align_ok ta && align_ok ba); [|reflexivity].
+    destruct bottom; cbn [option_map]; [|reflexivity].
+    rewrite Z.gtb_ltb. destruct (Z.ltb_spec 1 (d_rows d)); [lia|reflexivity].
+Qed.
+
+(* the statement F-C17-message-one-row contradicted, for every one-row geometry, every pair
+   of texts, alignments and clear flag, from the declaration on *)
+Lemma top_message_one_row : forall g h0 t b ta ba c,
+  fitsb g = true -> g_rows g = 1 -> hinit g = Some h0 ->
+  asciib t = true -> asciib b = true -> align_ok ta = true -> align_ok ba = true ->
+  let op := OMessage (Some t) (Some b) ta ba c in
+  snd (hstep h0 op) = HOk /\ dstep (dinit g) op <> None /\
+  cells (dstep' (dinit g) op) = map (map canon) (h_buf (fst (hstep h0 op))) /\
+  hstep h0 op = hstep h0 (OLine 0 t ta c).
+Proof.
+  intros g h0 t b ta ba c Hf Hr Hi Ht Hb Hta Hba op.
+  destruct (top_init_agrees g h0 Hf Hi) as (Sh & _).
+  assert (Hf' : fitsb (d_g (dinit g)) = true) by (rewrite dinit_g; exact Hf).
+  destruct (top_message_refines h0 (dinit g) (Some t) (Some b) ta ba c Hf' Sh Ht Hb Hta Hba) as (h' & d' & Eh & Ed & Sh').
+  fold op in Eh, Ed. unfold dstep'. rewrite Eh, Ed. cbn [fst snd].
+  split; [reflexivity|]. split; [discriminate|]. split; [apply Sh'|].
+  rewrite <- Eh.
+  assert (Hr0 : h_rows h0 <= 1).
+  { unfold hinit in Hi. destruct ((g_cols g <=? 0) || (g_rows g <=? 0)); [discriminate|]. injection Hi as <-.
+    unfold h_rows. cbn [h_g]. lia. }
+  destruct (top_message_one_row_skips h0 (dinit g) (Some t) (Some b) ta ba c) as [Hh _].
+  subst op. rewrite (Hh Hr0). cbn [hstep]. unfold hmessage.
+  destruct (hline h0 0 t ta c) as [h1 r1]. destruct r1; reflexivity.
 Qed.
 
 (* a geometry of the quantifier (cols <= 40, rows <= 4) that does not fit the DDRAM of one
@@ -508,22 +542,25 @@ Qed.
 Definition bar_gap (cols value maxv : Z) (width : option Z) : Z :=
   Z.abs (hfilled value maxv (hwidth cols width) - dfilled value maxv (dwidth cols width)).
 
-(* width <= 0: the host draws a 1-cell bar, the firmware a cols-cell bar *)
-Lemma top_progress_width_refuted :
-  exists cols value maxv w, 1 <= cols <= 40 /\ 0 < maxv /\ w <= 0 /\ (maxv | value * w) /\
-    1 < bar_gap cols value maxv (Some w).
+(* the statements F-C17-progress-width (width <= 0) and F-C17-progress-max (max_value <= 0)
+   contradicted, for every width argument (None, <= 0, 1..cols, > cols) and every max_value:
+   identical bars whenever value*width is a multiple of max_value, never more than one cell
+   apart (repaired in __redu_lcd_progress: width clamped into 1..cols, empty bar for
+   max_value <= 0, as the host does) *)
+Lemma top_progress_same_bar : forall cols value maxv width, 1 <= cols ->
+  (maxv | value * hwidth cols width) -> bar_gap cols value maxv width = 0.
 Proof.
-  exists 16, 100, 100, 0. split; [lia|]. split; [lia|]. split; [lia|]. split; [exists 0; reflexivity|].
-  vm_compute. reflexivity.
+  intros cols value maxv width Hc Hdiv. unfold bar_gap.
+  destruct (width_agree cols width Hc) as [Ew Hwr]. rewrite Ew.
+  rewrite (progress_exact value maxv (hwidth cols width)) by (try lia; exact Hdiv). rewrite Z.sub_diag. reflexivity.
 Qed.
 
-(* max_value <= 0: the host shows an empty bar, the firmware treats max_value as 1 *)
-Lemma top_progress_max_refuted :
-  exists cols value maxv, 1 <= cols <= 40 /\ maxv <= 0 /\ (maxv | value * cols) /\
-    1 < bar_gap cols value maxv None.
+Lemma top_progress_bar_within_one : forall cols value maxv width, 1 <= cols ->
+  bar_gap cols value maxv width <= 1.
 Proof.
-  exists 16, 5, (-1). split; [lia|]. split; [lia|]. split; [exists (-80); reflexivity|].
-  vm_compute. reflexivity.
+  intros cols value maxv width Hc. unfold bar_gap.
+  destruct (width_agree cols width Hc) as [Ew Hwr]. rewrite Ew.
+  pose proof (progress_within_one value maxv (hwidth cols width) ltac:(lia)). lia.
 Qed.
 
 (* non-ASCII text: the firmware counts and prints UTF-8 bytes, the host code points, so
